@@ -414,7 +414,7 @@ class _Decomp:
         return True
 
 
-@unit("C12", "handle_frame.contract", functions=[f"{MOD}:WebSocketReader._handle_frame"])
+@unit("C12", "handle_frame.contract", functions=[f"{MOD}:WebSocketReader._handle_frame"], also=("C11",))
 def handle_frame_contract(u: U):
     """_handle_frame against RFC 6455 5.4/5.5/7.4 + RFC 7692 and against the contract its caller uses."""
     R = live()
@@ -458,6 +458,13 @@ def handle_frame_contract(u: U):
                 if u.branch(And(opcode == rfc.OP_CLOSE, plen >= 2), "close_with_code"):
                     cc = payload.byte_at(0) * 256 + payload.byte_at(1)
                     close_bad = Not(rfc.close_code_valid(cc))
+                    # C11 (round trip): every status code a sender may put into a Close frame - the public WSCloseCode
+                    # vocabulary except the local-only 1006, and 3000-4999 - is received, not refused
+                    u.check("C11.close.sendable_code_accepted", close_bad,
+                            "a Close frame is refused for its status code only if that code may not travel at all: "
+                            "writer.close(code) with any wire-valid code (RFC 6455 7.4.1 + IANA: 1000-1003, 1007-1014, "
+                            "3000-4999) is received as WSMessageClose(code), not as a protocol error",
+                            witness={"close_code": cc})
                 u.check("C12.code.handle.1002", Or(
                     And(opcode == rfc.OP_CONT, Not(in_progress)),
                     And(rfc.one_of(opcode, (rfc.OP_TEXT, rfc.OP_BINARY)), in_progress),
@@ -535,6 +542,7 @@ def handle_frame_contract(u: U):
             if u.branch(plen >= 2, "close_code_present"):
                 cc = payload.byte_at(0) * 256 + payload.byte_at(1)
                 u.check("C12.handle.close.code_reported", msg.data == cc, "reported close code is the peer's code")
+                u.check("C11.close.roundtrip_code", msg.data == cc, "the received close code is the two bytes the writer packed")
                 u.check("C12.handle.close.code_valid", rfc.close_code_valid(cc),
                         "only close codes that may appear on the wire (RFC 6455 7.4) are accepted",
                         known=[("F12c", cc == 1006)], witness={"close_code": cc})
